@@ -55,7 +55,9 @@ func ProcessCallback(
 	}()
 
 	err = callbackExecutor(cachedCtx)
-	if err == nil {
+	// NOTE: a callback which exceeded its gas limit is reported as out of gas by the deferred function,
+	// its state changes must be discarded even if the executor swallowed the out of gas panic and returned nil.
+	if err == nil && !cachedCtx.GasMeter().IsPastLimit() {
 		writeFn()
 	}
 
